@@ -16,7 +16,8 @@ Keys == << [s |-> "Title",     n |-> "title"],
            [s |-> "Author",    n |-> "author"],
            [s |-> "1. Intro",  n |-> "1.intro"],
            [s |-> "2019 rev",  n |-> "2019rev"],
-           [s |-> "Author Affiliation", n |-> "authoraffiliation"] >>         \* a key that another key ("author") is a proper prefix of
+           [s |-> "Author Affiliation", n |-> "authoraffiliation"],           \* a key that another key ("author") is a proper prefix of
+           [s |-> "Title Page", n |-> "titlepage"] >>                          \* ... and one that starts with the key the document title is taken from
 \* value: source lines (first line follows "key:", the others are indented continuation lines); each line is a
 \* sequence of atoms; w = TRUE marks white space
 W(x) == [s |-> x, w |-> TRUE]
